@@ -21,9 +21,9 @@ PROPS = {
                 claim='local step contracts of the LR(1) construction that are within reach: item index encode/decode round trip, memo-key injectivity of the FIRST/nullable slice memos, rule sorting (ordered + permutation) and per-nonterminal slices (partition), add_situation (item set, item list, bucket by symbol after the dot, kernel), bitset primitives; and the driver executing the table entry of (top state, presented term)',
                 assumptions=[L_KNUTH, GLUE, L_PATH, TABLE_WF]),
     'C03': dict(units=['regex_decode', 'dfa', 'dfa@small', 'charnames'], static=[SF.regex_grammar_static],
-                claim='the specified links of the chain: decoding of characters/escapes/hex and ranges (unsigned, inclusive), the automaton run loop (longest prefix, slot-0 winner, stops only at end or missing transition), expr::match = whole-string recognition of term 0 without forming a pointer from the failure sentinel',
+                claim='the specified links of the chain: decoding of characters/escapes/hex and ranges (unsigned, inclusive), decoding of a whole primary lexeme (`.`, single element, set = union of its items, complemented for [^), the automaton run loop (longest prefix, slot-0 winner, stops only at end or missing transition), expr::match = whole-string recognition of term 0 without forming a pointer from the failure sentinel',
                 assumptions=['language equality over unbounded strings is not expressible as a contract; the composition operators (cat/alt/star/plus/opt/rep by in-place merging) are not verified and are unsound (finding D9)',
-                             'well-formedness of the library-built automata (every transition none or < size) rests on the builder, not verified: [L-wf]', 'string_view_to_subset and the dfa_builder primitives are not under contract']),
+                             'well-formedness of the library-built automata (every transition none or < size) rests on the builder, not verified: [L-wf]', 'string_view_to_subset is proved for set lexemes of at most 20 bytes (size of the ghost boundary-mark arrays; the loop itself is closed by its invariant), under the item structure the lexer guarantees, which is assumed in the harness (vx_lexeme) and not derived from match_range by induction', 'dfa_builder::rep as a whole is not under contract (only its innermost shift loop): the job does not finish']),
     'C05': dict(units=['state_analyzer', 'terms', 'rules', 'glue'],
                 claim="solve_conflict decides reduce iff rule precedence > term precedence or equal with the rule left-associative (from the statement); the rule's last term is its right-most terminal; rule precedence = explicit [n] if non-zero else the last term's else 0; rule associativity = the last term's",
                 assumptions=['conflict detection inside transitions() (which entry gets the verdict, has_sr_conflict) is not under contract', L_KNUTH, GLUE]),
